@@ -42,6 +42,25 @@ def SuffixFree (r : Reg V) : Prop :=
 /-- all vectors of one metric entry carry the same help string -/
 def HelpUniform (r : Reg V) : Prop := ∀ m ∈ r.metrics, ∀ v ∈ m.vecs, ∀ w ∈ m.vecs, v.help = w.help
 
+/-- the names of the companion series a family `name` of type `ty` exposes besides its own name: `_count` and
+    `_sum` for a summary, also `_bucket` for a histogram, none for a counter or a gauge (what
+    `checkSuffixCollisions` derives from a family, `suffixCollision` in SE/Model/Registry.lean) -/
+def companionNames (name : Bytes) : MType → List Bytes
+  | .histogram => [name ++ sfxCount, name ++ sfxSum, name ++ sfxBucket]
+  | .summary => [name ++ sfxCount, name ++ sfxSum]
+  | _ => []
+
+/-- the metric `(name, ty)` neither has the name of a pre-registered family nor is in a companion-suffix relation with one,
+    in either direction (what `checkSuffixCollisions` looks at): for every pre-registered family `(pn, pt, _)`
+    * `pn ≠ name`,
+    * `pn` is not a companion name of `(name, ty)`: not `name_count`/`name_sum` if `ty` is a summary or histogram, nor
+      `name_bucket` if it is a histogram,
+    * `name` is not a companion name of `(pn, pt)`: not `pn_count`/`pn_sum` if `pt` is a summary or histogram, nor
+      `pn_bucket` if it is a histogram. -/
+def AvoidsPre (pre : List (Bytes × MType × Bytes)) (name : Bytes) (ty : MType) : Bool :=
+  pre.all fun (pn, pt, _) =>
+    pn != name && !(companionNames name ty).contains pn && !(companionNames pn pt).contains name
+
 /-- the help string of the first vector ever created for the metric name, if there is one (`helpFor`: vectors are
     never removed, and every later vector of the name is created with this help string) -/
 def Reg.firstHelp? (r : Reg V) (name : Bytes) : Option Bytes := ((r.find name).bind (·.vecs.head?)).map (·.help)
